@@ -239,6 +239,69 @@ def c_module_depth(P):
     P.cover("module_depth")
 
 
+TOPNAME = "_griffe.finder:ModuleFinder._top_module_name"
+
+
+@contract("C14", "top_module_name.requested_directory_comes_first", [TOPNAME, "_griffe.finder:ModuleFinder.insert_search_path"], floor=2, replay="replay_file_trees",
+          tier="BS", note="search path lists of length 0-2 (contents symbolic); the directory climb is havocked (no invariant needed for the clause), its termination is not proved")
+def c_top_module_name(P):
+    """A package requested by the path of its directory: when a configured search path lies above the directory nothing is added and the name is the first
+    component below the FIRST such search path; otherwise the parent of the directory whose name is returned becomes the first search path (so that
+    find_package, first match wins, finds that directory and not a same-named package on a configured path) unless it was configured already."""
+    install_relpaths(P)
+    ISDIR = z3.Function("IS_DIR", IntS, BoolS)
+    RESOLVE = z3.Function("PATH_RESOLVE", IntS, IntS)
+    NAME = z3.Function("PATH_NAME", IntS, StrS)
+    UNDER = z3.Function("IS_UNDER", IntS, IntS, BoolS)
+    P.attr_hooks[("pathlib.Path", "is_dir")] = lambda P_, o: BoundMethod(o, lambda P2, s_, a, k: SBool(ISDIR(o.ident)))
+    P.attr_hooks[("pathlib.Path", "resolve")] = lambda P_, o: BoundMethod(o, lambda P2, s_, a, k: FS.mk(RESOLVE(o.ident)))
+    named = []
+
+    def name_of(P_, o):
+        named.append(o)
+        return SStr(NAME(o.ident))
+    P.attr_hooks[("pathlib.Path", "name")] = name_of
+    tried = []
+
+    def relative_to(P_, o):
+        def callm(P2, s_, a, k):
+            tried.append((o, a[0]))
+            if not P2.branch(UNDER(o.ident, a[0].ident)):
+                raise PyExc(P2.mk_exc("ValueError", "not in the subpath"))
+            return FS.mk(RELTO(o.ident, a[0].ident))
+        return BoundMethod(o, callm)
+    P.attr_hooks[("pathlib.Path", "relative_to")] = relative_to
+    n = z3.Int("n_search_paths")
+    P.assume(z3.And(n >= 0, n <= 2))
+    k = 0 if P.branch(n == 0) else (1 if P.branch(n == 1) else 2)
+    before = [FS.mk(z3.Int(f"search_path_{i}")) for i in range(k)]
+    finder = SObj("ModuleFinder", {"search_paths": list(before)}, ident=z3.Int("finder_id"))
+    request = FS.mk(z3.Int("requested_path"))
+    q = TOPNAME
+    P.loop_specs[(q, "test:parent_path.parent != parent_path and (parent_path.parent / '__init__.py').exists()")] = dict(
+        mode="inv", name="climb", default_hint=lambda P_, nm, cur: FS.mk(P_.fresh_int(nm).z) if isinstance(cur, SObj) and P_.resolve_cls(cur) == "pathlib.Path" else None)
+    kind, res = outcome(P, lambda: call(P, q, finder, request))
+    P.prove("never_raises", kind == "ok", exc=(P.resolve_cls(res) if kind == "raise" else ""))
+    if kind != "ok":
+        return
+    after = finder.fields["search_paths"]
+    if not named:
+        # returned from inside the search-path loop
+        P.prove("a_search_path_above_the_request_adds_nothing", len(after) == len(before) and all(x is y for x, y in zip(after, before)))
+        P.prove("the_first_search_path_above_the_request_decides", len(tried) >= 1 and all(t[1].ident.sexpr() == RESOLVE(b.ident).sexpr() for t, b in zip(tried, before)),
+                tried=len(tried))
+        P.cover("top_module_name.under_a_search_path")
+        return
+    d = named[-1]
+    x = RESOLVE(PARENT(d.ident))
+    P.prove("every_search_path_was_tried_first", len(tried) == len(before), tried=len(tried))
+    P.prove("the_returned_name_is_that_of_the_directory_whose_parent_is_added", zstr(res) == NAME(d.ident))
+    P.prove("configured_search_paths_are_all_kept", all(any(y is b for y in after) for b in before) and len(after) <= len(before) + 1)
+    P.prove("the_parent_of_the_requested_package_comes_first_unless_already_configured",
+            z3.Or(*([after[0].ident == x] if after else []), *[b.ident == x for b in before]) if (after or before) else False)
+    P.cover("top_module_name.added")
+
+
 def lemmas(tier, seed):
     import ast as _ast
     from pyvc.source import SourceIndex
